@@ -21,6 +21,7 @@ Inductive rnode :=
 | RPlain (h : hnode)
 | RRef (id : N) (group : N) (inner : rnode) (m : meta)
 | RTee (id : N) (inner : rnode) (m : meta)
+| RPart (id : N) (inner : rnode) (m : meta)   (* PartitionSide over its shared PartitionShared *)
 | RUn (u : un) (refs : list (rnode * bool)) (input : rnode) (m : meta)
 | RBin (b : bin) (l r : rnode) (m : meta).
 
@@ -29,7 +30,7 @@ Inductive rroot := RRSink (k : sink) (input : rnode) | RRCycleSink (c : N) (inpu
 Definition rmeta (n : rnode) : meta :=
   match n with
   | RPlain h => meta_of h
-  | RRef _ _ _ m | RTee _ _ m | RUn _ _ _ m | RBin _ _ _ m => m
+  | RRef _ _ _ m | RTee _ _ m | RPart _ _ m | RUn _ _ _ m | RBin _ _ _ m => m
   end.
 
 (* a handoff reference: consumer node, target (handoff) node, is_mut, access group *)
@@ -49,14 +50,14 @@ Section EmitR.
         | Some (i, s') => Some (i, (s', snd s))
         | None => None
         end
-    | RRef id _ inner _ | RTee id inner _ =>
+    | RRef id _ inner _ | RTee id inner _ | RPart id inner _ =>
         match assoc_n id (s_tees (fst s)) with
         | Some (i, _) => Some (i, s)
         | None =>
             match emit_r inner s with
             | None => None
             | Some (i, (s1, rf)) =>
-                let op := match n with RRef _ _ _ _ => "#handoff" | _ => "tee" end in
+                let op := match n with RRef _ _ _ _ => "#handoff" | RPart _ _ _ => "partition" | _ => "tee" end in
                 let '(k, s2) := add_op T op 0 [(i, "[]")] s1 in
                 Some (inl k, (mkSt (s_next s2) (s_nodes s2) (s_edges s2) (s_pend s2)
                                    ((id, (inl k, 0)) :: s_tees s2) (s_sinks s2), rf))
